@@ -61,6 +61,8 @@ var c09URIPairs = [][2]string{
 	{"http://a.example/p/q", "http://a.example/p/x/%2E%2e/q"},
 	{"http://a.example/p/q", "http://a.example/p/x/.%2E/q"},
 	{"http://a.example/p/q", "http://a.example/%2e/p/q"},
+	{"http://a.example/p/q", "http://a.example/p/x/%2e/../q"},
+	{"http://a.example/p/q", "http://a.example/p/x/y/%2E%2E/../q"},
 	{"http://[fe80::1%25eth0]/p/q", "HTTP://[FE80::1%25eth0]:80/p/./%71#f"},
 	{"http://a.example/p/q", "http://a.example/p/q#frag"},
 	{"http://a.example", "http://a.example/"},
@@ -200,7 +202,7 @@ func c09Respell(r *rand.Rand, scheme, host, port, path, query string) string {
 	}
 	if chance(r, 0.3) && strings.Count(path, "/") >= 2 { // dot segments
 		i := strings.LastIndexByte(path, '/')
-		path = path[:i] + pick(r, []string{"/.", "/x/..", "/x/y/../..", "/%2e", "/x/%2E%2E", "/x/.%2e"}) + path[i:]
+		path = path[:i] + pick(r, []string{"/.", "/x/..", "/x/y/../..", "/%2e", "/x/%2E%2E", "/x/.%2e", "/x/%2e/..", "/x/y/%2E%2E/.."}) + path[i:]
 	}
 	if path == "/" && chance(r, 0.3) {
 		path = ""
@@ -467,7 +469,16 @@ func c09vRun(r *run.Runner, c c09vCase) {
 		}
 	}
 	onCond := "304"
+	nv2 := 0
 	w := sim.NewWorld(sim.WorldOpt{Inner: inner, Handler: func(uc *sim.UpCall, req *http.Request) *sim.Reply {
+		if req.URL.Path == "/c9v2" {
+			// a resource whose Vary field changes after the first reply
+			nv2++
+			if nv2 == 1 {
+				return Render(&RespSpec{Status: 200, CC: []string{"max-age=5"}, Vary: []string{"X-A"}, BodySize: 10}, uc.Enter, uc.Serial)
+			}
+			return Render(&RespSpec{Status: 200, CC: []string{"max-age=100000"}, Vary: []string{"X-B"}, BodySize: 10}, uc.Enter, uc.Serial)
+		}
 		var v int
 		fmt.Sscanf(req.Header.Get("X-A"), "v%d", &v)
 		L := c.Lifetimes[v%len(c.Lifetimes)]
@@ -547,6 +558,29 @@ func c09vRun(r *run.Runner, c c09vCase) {
 		}
 		if len(w.Exchanges) > 6 {
 			w.Exchanges = w.Exchanges[len(w.Exchanges)-6:]
+		}
+	}
+	if c.Overlap == "" {
+		// closing scene: the origin changed its Vary field. The first response
+		// (Vary: X-A, short-lived) goes stale; a request with another X-A gets
+		// a long-lived response that varies on X-B instead. A request with the
+		// first X-A now matches both stored responses - the stale old one and
+		// the fresh new one (X-B is absent in all requests): it is answered
+		// from the store.
+		const url2 = "http://a.example/c9v2"
+		sig := fmt.Sprintf("vary-changed,backend=%s", c.Backend)
+		w.Do(sim.ReqSpec{URL: url2, Header: map[string][]string{"X-A": {"s1"}}})
+		time.Sleep(7 * time.Second)
+		n2 := w.Do(sim.ReqSpec{URL: url2, Header: map[string][]string{"X-A": {"s2"}}})
+		if n2.BodySerial() != "" && len(n2.Calls()) == 1 {
+			time.Sleep(time.Second)
+			ex := w.Do(sim.ReqSpec{URL: url2, Header: map[string][]string{"X-A": {"s1"}}})
+			r.AddEvaluations(1)
+			judged++
+			r.Count("must_serve_checks_after_vary_change", 1)
+			if ex.Header == nil || len(ex.Calls()) > 0 || ex.BodySerial() != n2.BodySerial() {
+				r.Violation("origin-contacted", sig, fmt.Sprintf("a fresh stored response (token %s, Vary: X-B, stored 1 s ago) matches the request, but an older stale one (Vary: X-A) was preferred and the origin contacted; %s", n2.BodySerial(), ex.Summary()), exSummaries(w))
+			}
 		}
 	}
 	if c.Overlap != "" {
